@@ -489,7 +489,14 @@ def stepenv_second_opinion(s, stats):
 
 
 def run_script(s, out):
-    obj = make(s["kind"], s["ctor"])
+    try:
+        obj = make(s["kind"], s["ctor"])
+    except BaseException:  # noqa: BLE001
+        if s.get("optional_ctor"):
+            # a degenerate configuration (step size 0) that an implementation may legitimately refuse: nothing to judge
+            out["skipped_scripts"] = out.get("skipped_scripts", 0) + 1
+            return
+        raise
     last_orders, last_trades = [], []
     oracle = SelfOracle(s["ctor"], {"stepenv": "StepEnv", "stepenvnumpy": "StepEnvNumpy"}.get(s["kind"], "StepEnv")) if s.get("self_oracle") else None
     diverged = False  # the object's state no longer follows the Rust twin (different shuffle): later values are not compared with it
